@@ -173,3 +173,11 @@ def hashing_is_history_independent_input(s, action):
     hash(s)
     transition_with_copy(actuate_door, s, action)
     check('input-hash-unchanged-by-the-step', lambda: hash(s) == hash(rebuilt(s)))
+
+
+@contract(target=GR + 'Grid.object_types', args={'self': 'Grid', 'c': 'Class'}, ghost=['c'], props=['C01', 'C15'])
+def grid_object_types(self, c):
+    g0 = old(self)
+    ensures('total', lambda: returned())
+    ensures('exactly-the-classes-of-the-cells', lambda: (c in result()) == exists_cells(self, lambda p: type(self[p]) is c))
+    ensures('pure', lambda: same(self, g0))
